@@ -309,9 +309,9 @@ func (vf *VersionedFetcher) seekNext(c cid.Cid, topParent bool) error {
 		return NewErrVFetcherFailedToDecodeNode(err)
 	}
 
-	// only seekNext on parent if we have a HEAD link
-	if len(block.Heads) != 0 {
-		err := vf.seekNext(block.Heads[0].Cid, true)
+	// seekNext on every parent, a block has more than one if it merged diverged histories
+	for _, head := range block.Heads {
+		err := vf.seekNext(head.Cid, topParent)
 		if err != nil {
 			return err
 		}
@@ -408,7 +408,11 @@ func (vf *VersionedFetcher) merge(c cid.Cid) error {
 	}
 
 	// handle subgraphs
-	for _, l := range block.AllLinks() {
+	//
+	// The parents (heads) of the block are not part of its subgraph: every composite block of the
+	// history is queued and merged on its own by seekTo, and merging a block twice is not idempotent
+	// for all CRDT types.
+	for _, l := range block.Links {
 		err = vf.merge(l.Cid)
 		if err != nil {
 			return err
